@@ -37,9 +37,9 @@ class Clean(Play):
         super().__init__(case, rendered)
         self.points = []
 
-    def after_step(self, i, step, obs):
+    def after_step(self, i, step, obs, ctx=None):
         toks = list(self.H.log)
-        super().after_step(i, step, obs)
+        super().after_step(i, step, obs, ctx)
         first_group = True
         seen_end = False
         for n, t in enumerate(toks):
@@ -53,10 +53,10 @@ class Faulty(Play):
         self.later = []
         self.pending_at_fault = 0
 
-    def after_step(self, i, step, obs):
+    def after_step(self, i, step, obs, ctx=None):
         toks = list(self.H.log)
         before_dropped = self.interp.stats["dropped_on_failure"] if self.interp else 0
-        super().after_step(i, step, obs)
+        super().after_step(i, step, obs, ctx)
         if self.interp.stats["dropped_on_failure"] > before_dropped:
             self.labels.add("pending-events-dropped")
             self.nontrivial = True
